@@ -640,8 +640,8 @@ def predicted_rejections(case):
         and what follows is not code (the label / the call's return site has nothing
         to stand on; documented limit of zero-sized blocks).
     branch-to-moved-label: a patch branches to / calls a label whose block is
-        wholly deleted in the same batch (known finding, C09: the assembler reads
-        Symbol.referent, which is None while the ReferenceCache holds it).
+        wholly deleted in the same batch; the label slides to the next block, and
+        when that is a data block the assembler rightly refuses the branch.
     """
     text = case["text"]
     out = set()
